@@ -269,3 +269,35 @@ Lemma eff_writeid f a t fd c t' :
   ((t_pc t = RWriteUp /\ c = upload_body t /\ t' = set_pc t RCreateLocal) \/
    (t_pc t = RWriteLocal /\ c = local_body t /\ t' = finish_week t)).
 Proof. intros H. destruct a; dinv H; auto. Qed.
+
+(* ---------------------------------------------------------------- thread-local invariants *)
+Lemma thread_inv_reach (P : thread -> Prop) :
+  (forall k c, P (new_thread k c)) ->
+  (forall f a t e t', decide_all f a t = (e, t') -> P t -> P t') ->
+  forall st, reach st -> forall i t, nth_error (s_ths st) i = Some t -> P t.
+Proof.
+  intros Hnew Hstep st. induction 1; intros j tj Hj.
+  - destruct (init_threads _ _ _ _ Hj) as (k & c & ->). apply Hnew.
+  - destruct ia as [i a].
+    destruct (step_cases st i a) as [E | (t & e & t' & Hi & Hk & Hd & E)]; rewrite E in Hj.
+    + eauto.
+    + simpl in Hj. rewrite nth_error_upd in Hj. destruct (Nat.eqb i j) eqn:Eij; [|eauto].
+      rewrite Hi in Hj. injection Hj as <-. eapply Hstep; eauto.
+  - destruct (spawn_threads _ _ _ _ Hj) as [H1 | [_ ->]]; [eauto|apply Hnew].
+Qed.
+
+(* steps and spawns from a given state *)
+Inductive reach_from (st0 : state) : state -> Prop :=
+  | rf_refl : reach_from st0 st0
+  | rf_step st ia : reach_from st0 st -> reach_from st0 (step st ia)
+  | rf_spawn st c : reach_from st0 st -> reach_from st0 (spawn st c).
+
+Lemma reach_from_reach st0 st : reach st0 -> reach_from st0 st -> reach st.
+Proof. intros H0. induction 1; auto using reach_step, reach_spawn. Qed.
+
+Lemma reach_from_run st0 sched : reach_from st0 (run sched st0).
+Proof.
+  assert (G : forall st, reach_from st0 st -> reach_from st0 (run sched st)).
+  { induction sched as [|ia s IH]; intros st H; simpl; auto. apply IH. apply rf_step. exact H. }
+  apply G. apply rf_refl.
+Qed.
